@@ -408,7 +408,7 @@ fn isolated_programs() -> Vec<String> {
 }
 
 /// programs whose executions share nothing
-fn isolated_code_programs() -> Vec<String> {
+pub(crate) fn isolated_code_programs() -> Vec<String> {
     let mut out: Vec<String> = ISOLATED_CODE.iter().map(|t| t.to_string()).collect();
     for body in cell_position_bodies() {
         out.push(format!("n := 4; {body} c += n; c += 1; *c"));
